@@ -438,6 +438,12 @@ func famFault(w *bufio.Writer, seed uint64, n int) error {
 				spec.File = ""
 				spec.Skip = 0
 			}
+			if r.chance(1, 10) {
+				// the load of the freshly written segments fails (Stat/mmap behind OsFile(), which the
+				// recording does not show): the k-th load on this file
+				kind, where = "osfile", "segment-load"
+				spec = &faultSpec{Kind: kind, File: cd.file, Skip: r.intn(4), Count: burst}
+			}
 			armAt := 0
 			dir := mustMkdirTemp(workDir, "fault")
 			fr := runFaultWorkload(cfg, rounds, []*faultSpec{spec}, armAt, dir)
